@@ -52,6 +52,12 @@ FORCED = {
 }
 props = [json.loads(l) for l in open("/verif/properties.jsonl")]
 def focus_text(pid):
+    if int(wave) >= 7:
+        return ("For this round, prefer a bug whose trigger is an unusual MAGNITUDE or SHAPE rather than an unusual sequence of calls: more than 64 / 128 / 256 / 1000 of something "
+                "(entities in one table, tables in one relation archetype, archetypes, archetypes sharing a component, distinct relation targets, registered observers, cached filters, simultaneously open queries, resources, custom event types, registered component types), "
+                "a component type of size 0, of more than 1 KB, with unusual alignment or containing pointers/maps/strings/func values, world capacity parameters of 1 or very large ones, entity IDs beyond the initial capacity, "
+                "many Reset or Shrink cycles on one world, many recycling rounds of the same entity ID or table, typed API variants of high arity (9-12 type parameters). "
+                "Thresholds, counters, pre-sized slices, small integer types and 'fast paths' for small sizes are good places to look. Stay away from the functions listed below where you can.")
     if int(wave) >= 6:
         return ("For this round your change MUST be located in: " + FORCED[pid] + ". Only if you have tried at least three candidate changes there and each was caught by the existing tests may you go elsewhere (say so in meta.json), and then stay away from the functions listed below.")
     return ("For this round, look first at these rarely touched places: " + FOCUS[pid] + ". (If nothing there can break the property while the existing tests still pass, look elsewhere, but stay away from the functions listed below.)")
